@@ -49,7 +49,7 @@ def runEval (line : String) : String :=
   | [_, sx] =>
     match readProgram sx with
     | some p => result "MODEL-SKIP" (refVerdict p)
-    | none => result "MODEL-SKIP" "any"
+    | none => result "MODEL-SKIP" "nopanic"      -- no AST (parse errors): only "no crash" is demanded
   -- `eval <hex>` without an AST: the expectation comes from the case generator (limit programs, C14)
   | [_] => result "MODEL-SKIP" "any"
   | _ => "bad-op"
